@@ -175,3 +175,66 @@ def fc1(P, C):
              "entries 0..inputDim-1 from tables.front()->%s(i) in a full loop, entry inputDim stored separately" % ATTR_SOURCE[key] if ok else
              "not every entry of %s is filled (loop over all input dimensions taking %s(i): %s; entry of the new dimension: %s) — the array comes "
              "uninitialised from the allocator" % (key, ATTR_SOURCE[key], found[key]["loop"] is not None, found[key]["new"] is not None))
+
+
+def fc2(P, C):
+    """FC-2: the stacking constructor interleaves the input coefficients along the new, fastest axis."""
+    C.rule("FC-2", "the new dimension is the last one, so it runs fastest in the row-major coefficient array: coefficient j of input table i goes to "
+           "position i + j*step with step = naxes[ndim-1] (the number of stacked tables), for every i below tables.size() and every j below the "
+           "number of coefficients of one input table (the product of the first ndim-1 axis lengths); the array is obtained with the product "
+           "of all ndim", floor=3)
+    fs_ = [g for g in P.fns("splinetable") if g.unit == "driver" and g.cls == ts.CLS and g.kind == "ctor" and len(g.params) >= 3]
+    if not fs_:
+        raise core.AnalysisBroken("FC-2: stacking constructor not found")
+    f = fs_[0]
+    tn = f.params[0]["name"]
+    decl = {}
+    for i in f.walk():
+        if f.k(i) == "DeclStmt":
+            for d in f.nodes[i]["decls"]:
+                if d.get("dk") == "Var" and d.get("init", -1) >= 0:
+                    decl[d["name"]] = _txt(f, d["init"])
+    store = None
+    for i in f.walk():
+        ap = ts.assign_parts(f, i)
+        if ap and ap[1] is not None and re.match(r"^coefficients\[", _txt(f, ap[0])) and "get_coefficients" in _txt(f, ap[1]):
+            store = (i, _txt(f, ap[0]), _txt(f, ap[1]))
+    if store is None:
+        C.ob("FC-2", "stacking constructor", "interleave", False, f.where(), "the store that copies the input coefficients was not found")
+        return
+    i, lhs, rhs = store
+    loops = [a for a in f.ancestors(i) if f.k(a) == "ForStmt"]
+    shape = {}
+    for L in loops:
+        ln = f.nodes[L]
+        if ln.get("init", -1) >= 0 and f.k(ln["init"]) == "DeclStmt":
+            d = f.nodes[ln["init"]]["decls"][0]
+            shape[d["name"]] = (_txt(f, d["init"]) if d.get("init", -1) >= 0 else "?", _txt(f, ln["cond"]), _txt(f, ln["inc"]))
+    m = re.match(r"^coefficients\[\((\w+)\+\((\w+)\*(\w+)\)\)\]$", lhs) or re.match(r"^coefficients\[\(\((\w+)\*(\w+)\)\+(\w+)\)\]$", lhs)
+    ok = False
+    det = "store %s = %s" % (lhs, rhs)
+    if m:
+        if lhs.startswith("coefficients[(("):
+            jv, sv, iv = m.group(1), m.group(2), m.group(3)
+        else:
+            iv, jv, sv = m.group(1), m.group(2), m.group(3)
+        if sv in shape and jv not in shape:          # `(step*j)`
+            jv, sv = sv, jv
+        src_ok = rhs in ("%s[%s]->get_coefficients()[%s]" % (tn, iv, jv), "%s[%s].get_coefficients()[%s]" % (tn, iv, jv))
+        step_ok = decl.get(sv, "") in ("naxes[(ndim-1)]", "naxes[ndim-1]")
+        i_ok = shape.get(iv, ("", "", ""))[0] == "0" and shape.get(iv, ("", "", ""))[1] == "(%s<%s.size())" % (iv, tn)
+        cnt = shape.get(jv, ("", "", ""))[1]
+        mj = re.match(r"^\(%s<(\w+)\)$" % jv, cnt)
+        j_ok = shape.get(jv, ("", "", ""))[0] == "0" and bool(mj) and decl.get(mj.group(1), "").replace(" ", "").startswith("accumulate(naxes,((naxes+ndim)-1),1,") 
+        ok = src_ok and step_ok and i_ok and j_ok
+        det = "coefficient j of table i -> i + j*step: source %s, step = naxes[ndim-1] %s, i over all tables %s, j over the product of the first ndim-1 axes %s" % (src_ok, step_ok, i_ok, j_ok)
+    C.ob("FC-2", "stacking constructor", "interleave", ok, f.loc(i), det)
+    total = [x for x, cal in f.calls() if cal and cal["name"] == "allocate" and f.parent[x] >= 0 and
+             re.match(r"^\(coefficients=", _txt(f, f.parent[x]))]
+    okn = False
+    if total:
+        a = _txt(f, f.args(total[0])[0])
+        okn = decl.get(a, "").replace(" ", "").startswith("accumulate(naxes,(naxes+ndim),1,")
+    C.ob("FC-2", "stacking constructor", "coefficient-count", okn, f.loc(total[0]) if total else f.where(), "the coefficient array holds the product of all ndim axis lengths: %s" % okn)
+    C.ob("FC-2", "stacking constructor", "new-axis-length", any(_txt(f, x) in ("(naxes[inputDim]=%s.size())" % tn,) for x in f.walk() if ts.assign_parts(f, x)), f.where(),
+         "the new axis has one coefficient per stacked table (padding tables included)")
